@@ -3,7 +3,7 @@
     (TRUSTED: distinct lists give independent outputs).  What is proved is what the code is responsible
     for: which data reach the oracle, in which order and framing.  Statements only. *)
 From Coq Require Import List Arith NArith Bool.
-From BP Require Import Model.Codec Model.Transcript Proofs.TranscriptP.
+From BP Require Import Model.Codec Model.Transcript Model.Nonce Proofs.TranscriptP Proofs.SameLogP.
 Import ListNotations.
 Open Scope N_scope.
 
@@ -42,5 +42,28 @@ Qed.
 Print Assumptions C04_identity_rejected.
 
 (** Non-vacuity: a concrete statement and proof get through the transcript phase. *)
+(** prover and verifier derive every challenge from the same input: restricted to the operations that
+    determine a challenge (appends and earlier challenges; forking a transcript RNG and drawing from it do
+    not touch the state), the prover's operation list — for every witness, with or without a seed — is
+    the verifier's up to the final challenge; the verifier then only adds the responses for the batch weight *)
+Theorem C04_prover_verifier_same_challenge_inputs : forall s seeded p w,
+  oview (Nonce.prover_ops s seeded p w) =
+  oview (osome_app (ops_new s None) (osome_app (ops_yz (p_a p) None)
+          (osome_app (ops_rounds (combine (p_li p) (p_ri p)) None) (ops_final (p_a1 p) (p_b p) None)))).
+Proof. exact prover_verifier_same_challenge_inputs. Qed.
+Print Assumptions C04_prover_verifier_same_challenge_inputs.
+
+Theorem C04_verifier_ops_split : forall s p,
+  verifier_ops s p = osome_app (osome_app (ops_new s None) (osome_app (ops_yz (p_a p) None)
+          (osome_app (ops_rounds (combine (p_li p) (p_ri p)) None) (ops_final (p_a1 p) (p_b p) None))))
+          (Some (ops_verifier_rng (p_r1 p) (p_s1 p) (p_d1 p))).
+Proof. exact verifier_ops_split. Qed.
+Print Assumptions C04_verifier_ops_split.
+
+(** an identity point stops the prover exactly when it stops the verifier *)
+Theorem C04_prover_errs_iff_verifier_errs : forall s seeded p w, Nonce.prover_ops s seeded p w = None <-> verifier_ops s p = None.
+Proof. exact prover_errs_iff_verifier_errs. Qed.
+Print Assumptions C04_prover_errs_iff_verifier_errs.
+
 Example C04_ex : exists l, verifier_ops (mkTstmt 8 1 5 [6] [7; 8] [None; Some 3]) (mkProof 1 [9] 10 11 12 13 14 [15] [16]) = Some l.
 Proof. eexists. reflexivity. Qed.
